@@ -10,6 +10,13 @@ from .trace import trace_block
 
 ANIM = "src/food_system/animal_populations.py"
 _cache = {}
+# the steps of the herd simulation that the C05-C07 rules address by name (each is analysed on its own): when the tracer meets a call
+# that passes the animal to any OTHER repository function which merely hands it on to further functions, that function's body is
+# traced as part of the month (a block of the month loop moved into a helper stays visible)
+PRIMITIVES = ("calculate_additive_births", "calculate_animal_population", "calculate_change_in_population", "calculate_final_population",
+              "calculate_healthy_homekill_head", "calculate_net_slaughter_hours_by_size", "calculate_other_deaths", "calculate_slaughter_rate",
+              "calculate_starving_animals_after_feed", "calculate_starving_homekill_head", "feed_animals", "feed_the_species",
+              "set_current_populations", "appened_current_populations")
 
 
 def month_loop(index):
@@ -37,7 +44,7 @@ def month_trace(index):
         raise AnalysisError("month loop target is not a plain name")
     env[ml.target.id] = Rat.atom("M")
     try:
-        leaves = trace_block(main, ml.body, env, month_classes=True)
+        leaves = trace_block(main, ml.body, env, month_classes=True, primitives=PRIMITIVES)
     except Unsupported as e:
         raise AnalysisError(f"month loop of main outside the analysed fragment: {e}")
     if len(leaves) < 6:
@@ -54,7 +61,7 @@ def function_trace(index, qual, iterations=1, self_obj=False):
     fn = index.func(ANIM, qual)
     env = {a.arg: Path((f"P{i}",)) for i, a in enumerate(fn.args.args)}
     try:
-        leaves = trace_block(fn, fn.body, env, month_classes=False, iterations=iterations)
+        leaves = trace_block(fn, fn.body, env, month_classes=False, iterations=iterations, primitives=PRIMITIVES)
     except Unsupported as e:
         raise AnalysisError(f"{qual} outside the analysed fragment: {e}")
     _cache[key] = (fn, leaves)
